@@ -33,9 +33,10 @@ const (
 	opSelect
 	opWGWait
 	opTimer // a timer goroutine waiting to fire: always enabled (firing time is a scheduler choice)
+	opIdle  // WaitIdle: enabled only when no other goroutine is
 )
 
-var kindName = [...]string{"resume", "lock", "rlock", "cond-wait", "send", "recv", "select", "wg-wait", "timer"}
+var kindName = [...]string{"resume", "lock", "rlock", "cond-wait", "send", "recv", "select", "wg-wait", "timer", "wait-idle"}
 
 type selCase struct {
 	send bool
@@ -221,6 +222,14 @@ func (s *S) pick(from *G) (alt, bool) {
 			continue
 		}
 		alts = s.altsOf(g, alts)
+	}
+	if len(alts) == 0 {
+		// quiescent: goroutines parked in WaitIdle may continue (lowest id first)
+		for _, g := range s.gs {
+			if !g.done && g.kind == opIdle {
+				alts = append(alts, alt{g: g})
+			}
+		}
 	}
 	if len(alts) == 0 {
 		return alt{}, false
@@ -747,6 +756,22 @@ func (o *Once) Do(f func()) {
 		defer func() { o.done = true }()
 		f()
 	}
+}
+
+// WaitIdle parks the caller until no other goroutine can make progress (every other
+// goroutine has finished or is blocked). Harness bodies use it to let the system
+// under test reach quiescence before they look at the result or end the scenario.
+func WaitIdle() {
+	s := cur
+	if s == nil {
+		return
+	}
+	if s.abort {
+		runtime.Goexit()
+	}
+	g := s.me()
+	g.kind = opIdle
+	s.yield(g)
 }
 
 // Yield is a plain scheduling point (used before atomic accesses).
